@@ -18,10 +18,14 @@ ASSUMPTIONS = [
 ]
 METHODS = ["fixed-point", "newton", "linear"]
 
-def run_impl(spec, sr, method, ids="explicit", rng=None, via="sum_products"):
+def run_impl(spec, sr, method, ids="explicit", rng=None, via="sum_products", patterned=False, staged=False):
     """returns {nonterminal index: flat list of observations}"""
     import fggs
-    b = gen.build_fgg(spec, sr.wconv, ids=ids, rng=rng, dtype=sr.torch_dtype())
+    def stage(g):
+        with warnings.catch_warnings():
+            warnings.simplefilter("ignore")
+            fggs.sum_products(g, method=method, semiring=sr.semiring())
+    b = gen.build_fgg(spec, sr.wconv, ids=ids, rng=rng, dtype=sr.torch_dtype(), patterned=patterned, stage=stage if staged else None)
     with warnings.catch_warnings():
         warnings.simplefilter("ignore")
         res = fggs.sum_products(b.fgg, method=method, semiring=sr.semiring())
@@ -37,6 +41,47 @@ def run_impl(spec, sr, method, ids="explicit", rng=None, via="sum_products"):
         if s != out.get(spec["start"]):
             raise AssertionError("sum_product differs from sum_products[start]")
     return out
+
+def run_singleton(spec, sr, method):
+    """the spec has one nonterminal (index 0) with one rule over terminals only: build it as a
+    FactorGraph and go through fggs.utils.singleton_fgg"""
+    import fggs, torch
+    from fggs.utils import singleton_fgg
+    r = spec["rules"][0]
+    fg = fggs.FactorGraph()
+    nls = [fggs.NodeLabel(gen.nl_name(i)) for i in range(len(spec["nlabels"]))]
+    for i, size in enumerate(spec["nlabels"]):
+        fg.add_domain(nls[i], fggs.FiniteDomain(list(range(size))))
+    nodes = [fggs.Node(nls[nl]) for nl in r["nodes"]]
+    for nd in nodes: fg.add_node(nd)
+    els = {}
+    for el, att in r["edges"]:
+        if el not in els:
+            els[el] = fggs.EdgeLabel(gen.el_name(spec, el), [nls[nl] for nl in spec["elabels"][el]["type"]], is_terminal=True)
+        fg.add_edge(fggs.Edge(els[el], [nodes[i] for i in att]))
+    fg.ext = [nodes[i] for i in r["ext"]]
+    for el, lab in els.items():
+        w = torch.tensor(gen.nested_map(spec["weights"][el], sr.wconv), dtype=sr.torch_dtype())
+        fg.add_factor(lab, fggs.FiniteFactor([fg.domains[nl.name] for nl in lab.type], w))
+    g = singleton_fgg(fg)
+    with warnings.catch_warnings():
+        warnings.simplefilter("ignore")
+        z = fggs.sum_product(g, method=method, semiring=sr.semiring())
+    return {0: [sr.obs(x) for x in dense_list(z)]}
+
+def singleton_spec(rng):
+    """one start nonterminal, one rule with terminal edges only (a factor graph)"""
+    while True:
+        spec = gen.random_spec(rng, recursive=False, max_nt=1, max_rules=1, max_nodes=4, max_edges=4, dup_ext=False)
+        if len(spec["rules"]) == 1 and all(spec["elabels"][el]["term"] for el, _ in spec["rules"][0]["edges"]):
+            used = {el for el, _ in spec["rules"][0]["edges"]}
+            # labels that the factor graph never mentions do not exist in singleton_fgg's grammar
+            keep = [0] + sorted(used)
+            ren = {old: new for new, old in enumerate(keep)}
+            spec = dict(spec, elabels=[spec["elabels"][i] for i in keep],
+                        rules=[dict(spec["rules"][0], edges=[(ren[el], att) for el, att in spec["rules"][0]["edges"]])],
+                        weights={ren[el]: w for el, w in spec["weights"].items() if el in used})
+            return spec
 
 def f1_predicate(spec, sr):
     """F1 (fixed in /repo): Log/Viterbi, a zero weight in a rule that also has an isolated internal node"""
@@ -65,7 +110,7 @@ def run(tier, seed):
             ids = ["explicit", "implicit", "mixed"][i % 3]
             call = "fggs.sum_products(fgg, method=%r, semiring=%r)" % (method, sr)
             try:
-                out = run_impl(spec, sr, method, ids=ids, rng=rng, via="both")
+                out = run_impl(spec, sr, method, ids=ids, rng=rng, via="both", patterned=(i % 4 == 1), staged=(i % 5 == 2))
             except Exception as e:
                 violations.append(Violation("sum_products raised %r" % (e,), case=dict(spec=gen.spec_jsonable(spec), semiring=repr(sr), method=method),
                                             call=call, corr="corr:sum_products", oracle="no exception expected on a well-formed non-recursive FGG"))
@@ -73,6 +118,21 @@ def run(tier, seed):
             obs = sorted(out.items())
             bycf[sr.carrier()].append((gw, weights_wire(spec, sr), obs))
             meta[sr.carrier()].append((spec, sr, method, obs))
+    # factor graphs through singleton_fgg
+    for i in range(n // 4):
+        spec = singleton_spec(rng)
+        gw = grammar_wire(spec)
+        for sr in CONFIGS:
+            method = METHODS[(i + len(sr.name)) % 3]
+            try:
+                out = run_singleton(spec, sr, method)
+            except Exception as e:
+                violations.append(Violation("singleton_fgg/sum_product raised %r" % (e,), case=dict(spec=gen.spec_jsonable(spec), semiring=repr(sr), method=method, via="singleton_fgg"),
+                                            call="sum_product(singleton_fgg(factor_graph))", corr="corr:singleton_fgg"))
+                continue
+            obs = sorted(out.items())
+            bycf[sr.carrier()].append((gw, weights_wire(spec, sr), obs))
+            meta[sr.carrier()].append((spec, sr, method + " via singleton_fgg", obs))
     total = 0
     nk = 0
     for k, vals in bycf.items():
@@ -98,7 +158,7 @@ def run(tier, seed):
                                             failing_input_found=False, call=call))
     s0 = meta["real"][0] if meta["real"] else None
     cov = dict(evaluations=total, distinct_nontrivial=len(distinct),
-               rule="random non-recursive FGG specs (harness/gen.py: <=4 nonterminals, <=3 rules each, <=5 nodes, <=4 edges, domain sizes 1-3, weights from {0,1/4,1/2,1,2,3,inf}, forced shapes with prob ~0.15) x {Real f64, Real f32, Log, Viterbi, Bool} x method rotating over fixed-point/newton/linear x explicit/implicit/mixed ids; every entry of sum_products compared; distinct_nontrivial = distinct specs with >= 2 rules or a forced shape",
+               rule="random non-recursive FGG specs (harness/gen.py: <=4 nonterminals, <=3 rules each, <=5 nodes, <=4 edges, domain sizes 1-3, weights from {0,1/4,1/2,1,2,3,inf}, forced shapes with prob ~0.15) x {Real f64, Real f32, Log, Viterbi, Bool} x method rotating over fixed-point/newton/linear x explicit/implicit/mixed ids; a quarter of the grammars with sparse PatternedTensor weights (diagonal / expanded) where the values allow, a fifth built in two stages with a query in between (caches keyed on the grammar object); every entry of sum_products compared; distinct_nontrivial = distinct specs with >= 2 rules or a forced shape",
                feature_histogram=feats, size_histogram=stats, kernel_reevaluated=nk,
                samples=[dict(spec=gen.spec_jsonable(s0[0]), semiring=repr(s0[1]), method=s0[2], observed=s0[3])] if s0 else [],
                open_items=[
@@ -113,7 +173,10 @@ def replay(path):
     c = r["case"]
     spec = gen.spec_from_json(c["spec"])
     sr = [s for s in CONFIGS if repr(s) == c["semiring"]][0]
-    out = run_impl(spec, sr, c["method"])
+    if "via singleton_fgg" in c["method"]:
+        out = run_singleton(spec, sr, c["method"].split()[0])
+    else:
+        out = run_impl(spec, sr, c["method"])
     code = run_coq(CF[sr.carrier()], [(grammar_wire(spec), weights_wire(spec, sr), sorted(out.items()))], tag="replay")[0]
     print("observed", out, "verdict code", code)
     return 1 if code else 0
